@@ -58,6 +58,11 @@ RECURSIVE GHolder(_, _)
 GHolder(g, n) == IF n = 0 THEN 0 ELSE IF g.steps[n].mode = "ref" THEN n ELSE GHolder(g, n - 1)    \* the component that contains node n
 IsExternalPathItemCycle(line, bad) ==
    IsInlinedPathItemCycle(line, bad) /\ line.c.g.split # 99 /\ GHolder(line.c.g, line.c.g.close.back) >= line.c.g.split
+(* F-C20-1 on a shared-target document (spec/RefShare.tla): a LINK or EXAMPLE site whose reference is a bare file name, loaded   *)
+(* through LoadFromData (no location): the reference is left without a resolved location and the name resolver panics.          *)
+IsShareWholeFileLinkOrExample(line) ==
+   /\ line.c.base.kind = "share" /\ "s" \in DOMAIN line.c /\ line.c.s.frag = "whole" /\ line.c.entry = "data"
+   /\ {line.c.s.k1, line.c.s.k2} \cap {"link", "example"} # {}
 SelfOps == {"schema_self_allof_default", "schema_self_anyof_example", "schema_self_not_default"}
 Class(line, bad) ==
    \* (one of the mutations -- thorough applies pairs -- is a self-composition operator, and the process dies validating)
@@ -72,6 +77,8 @@ Class(line, bad) ==
         THEN (IF msg = NilDeref /\ Panicked(line.obs) \subseteq {"marshal_json", "marshal_yaml"}      \* on a sparse base: a null entry of an examples / links map
                  /\ \E i \in DOMAIN ms : ms[i].op = "to_null" /\ ms[i].path \in SparseNullEntries
               THEN "nil_entry_dereferenced"
+              ELSE IF msg = NoName /\ Panicked(line.obs) = {"internalize"} /\ IsShareWholeFileLinkOrExample(line)
+              THEN "internalize_panics_unresolvable_ref_name"
               ELSE IF msg = NoName /\ Panicked(line.obs) = {"internalize"} /\ \E i \in DOMAIN ms : ms[i].op \in RefOpsF   \* F-C20-1 does not depend on the base
               THEN "internalize_panics_unresolvable_ref_name" ELSE "none")
    ELSE IF msg = NoName /\ Panicked(line.obs) = {"internalize"} /\ \E i \in DOMAIN ms : ms[i].op \in RefOpsF
